@@ -100,6 +100,7 @@ macro_rules! enum_family {
             pub mns: Vec<&'static [u8]>,
             pub from: fn(&[u8]) -> usize,
             pub try_from: fn(Token) -> Result<usize, i64>,
+            pub via: fn(&[u8], Token, usize) -> Result<usize, i64>,
             pub resp: fn(usize) -> (Vec<u8>, &'static [u8]),
         }
         pub fn family() -> Vec<EnumInfo> {
@@ -121,6 +122,7 @@ macro_rules! enum_family {
                     mns: vec![ $( &$mn[..] ),+ ],
                     from: |s| <$ename>::from_mnemonic(s).map(|v| idx(&v)).unwrap_or(0),
                     try_from: |t| <$ename>::try_from(t).map(|v| idx(&v)).map_err(|e| e.get_code() as i64),
+                    via: |lit, t, via| crate::numeric::convert_via::<$ename>(lit, t, via).map(|v| idx(&v)).map_err(|e| e.get_code() as i64),
                     resp: |i| { let v = mk(i); (fmt(&v).unwrap_or_default(), v.mnemonic()) },
                 }
             } ),+ ]
@@ -138,6 +140,7 @@ enum_family! {
     Outp { O1 = b"OUTPut", O2 = b"OUTPut2", Inp = b"INPut" }
     Tee { T1 = b"T1", T2 = b"T2", T10 = b"T10", T = b"TT" }
     Speed { Fast = b"FAST", Slow = b"SLOW", Med = b"MEDium3", Ulow(u16) = b"ULOW" }
+    Long { Thermo = b"THERmocouple", Temp = b"TEMPerature", Ref2 = b"INTernalref2", C12345 = b"CHANnel12345" }
 }
 
 fn enum_rows(out: &mut Out, rng: &mut Rng, thorough: bool) {
@@ -189,11 +192,19 @@ fn enum_rows(out: &mut Out, rng: &mut Rng, thorough: bool) {
         cands.sort();
         cands.dedup();
         for c in &cands {
-            if c.is_empty() || !c[0].is_ascii_alphabetic() {
+            if c.is_empty() || !c[0].is_ascii_alphabetic() || c.len() > 12 {
                 continue;
             }
             let from = catch(std::panic::AssertUnwindSafe(|| (e.from)(c))).map(|x| x as i64).unwrap_or(-1);
-            let tf = catch(std::panic::AssertUnwindSafe(|| (e.try_from)(Token::CharacterProgramData(c))));
+            // through the lexer and one of the three entry points (a candidate of <= 12 mnemonic characters is character data)
+            let via = crate::numeric::next_via();
+            let tf = match first_token(c) {
+                Some(t) => catch(std::panic::AssertUnwindSafe(|| (e.via)(c, t, via))),
+                None => Ok(Err(match scpi::parser::tokenizer::Tokenizer::new_params(c).next() {
+                    Some(Err(ec)) => Error::from(ec).get_code() as i64,
+                    _ => -1,
+                })),
+            };
             let (code, got) = match tf {
                 Ok(Ok(i)) => (0, i as i64),
                 Ok(Err(c)) => (c, 0),
